@@ -17,7 +17,8 @@ RULE = ("gates (and/or/xor/halfadder/fulladder) with random distinct labels (int
         "magic_square(n <= 4, power 1/2): constraints against Model/Magic.v, check_feasible on magic / Latin / random integer squares; "
         "quadratic_assignment (n <= 3, symmetric distances, list / array input) against Model/Qap.v and the documented cost on every placement; "
         "knapsack / bin packing / multi-knapsack CQMs (random_* with seeds and direct constructors) on all assignments of small "
-        "instances; random generators (uniform, randint, gnp, gnm, ran_r, doped, power_r) over all graph-argument forms; "
+        "instances; random generators (uniform, randint, gnp, gnm, ran_r, doped, power_r, frustrated_loop, chimera_anticluster) over all graph-argument forms, "
+        "each case re-examined for 16 further seeds derived from its seed (range / support clauses, offset included); "
         "non-trivial per kind as set by the worker; distinct by canonical JSON of the case")
 TRUSTED = ["translators/gates_tables.py (fail-closed ast translator: gates.py -> Gen/Gen_Gates.v, re-run before every build)",
            "translators/graph_constants.py (fail-closed ast translator: shapes, literals and keyword defaults of the independent-set generators -> Gen/Gen_Graph.v)",
@@ -49,10 +50,17 @@ PARTIAL = ["quadratic_assignment: C17_qap_cost_symmetric needs a symmetric dista
            "seed in the worker; how a draw becomes terms is translated from the source and proved",
            "random generators (uniform, randint, gnp/gnm_random_bqm, ran_r, power_r, doped) and decorators.graph_argument: MONITORED only - for "
            "every graph-argument form: biases in the declared range/set, interactions exactly on the declared edges, declared nodes present, "
-           "requested vartype, same seed (incl. 0) => equal and independent models; nothing more can be stated because the values are whatever "
+           "requested vartype, same seed (incl. 0) => equal and independent models; the range / support clauses are re-examined for 16 further "
+           "seeds per case so that a draw leaving the range for one seed in k is met in every case; nothing more can be stated because the values are whatever "
            "numpy's PRNG returns (distribution claims are not decidable on one sample)",
            "anti_crossing_clique / anti_crossing_loops (not in the statement text): MONITORED - documented structure, biases in {-1,0,1}, "
            "all-(+1) the unique ground state for <= 14 variables (ExactSolver), guards; shape-locked; no unbounded theorem",
-           "not covered at all (outside the statement text and anchors): chimera_anticluster, frustrated_loop (random cycles on a graph, planted "
-           "solution), binary_paint_shop_problem, wireless.mimo / coordinated_multipoint (floating-point channel models, not exact on dyadic data); "
+           "chimera_anticluster / frustrated_loop (random-model generators outside the anchors): MONITORED - chimera: variables and interactions "
+           "exactly the Chimera(m,n,t) graph written down independently in the worker (or the given subgraph, in its node order), intra-tile "
+           "biases +-1, inter-tile +-multiplier, zero linear/offset, m/n/t = 0, seed; frustrated_loop: variables/interactions exactly the declared "
+           "graph (every graph-argument form), integer couplings with |J| <= R, zero linear/offset, planted assignment (all +1, its negation, or "
+           "planted_solution) a ground state on all 2^n assignments, a single unplanted loop frustrated by exactly one edge, guards, seed; "
+           "both over 1+16 / 1+8 seeds per case; no theorem",
+           "not covered at all (outside the statement text and anchors): "
+           "binary_paint_shop_problem, wireless.mimo / coordinated_multipoint (floating-point channel models, not exact on dyadic data); "
            "integer.binary_encoding belongs to C16 (C16_binary_encoding_facts)"]
